@@ -4,8 +4,8 @@
 EXTENDS Reflection, TraceKit
 ReflV1 == <<103, 114, 112, 99, 46, 114, 101, 102, 108, 101, 99, 116, 105, 111, 110, 46, 118, 49, 46, 83, 101, 114, 118, 101, 114, 82, 101, 102, 108, 101, 99, 116, 105, 111, 110>>
 ReflV1a == <<103, 114, 112, 99, 46, 114, 101, 102, 108, 101, 99, 116, 105, 111, 110, 46, 118, 49, 97, 108, 112, 104, 97, 46, 83, 101, 114, 118, 101, 114, 82, 101, 102, 108, 101, 99, 116, 105, 111, 110>>
-Fresh(stim) == [stim |-> stim, n |-> 0]
-Keys == {"runs", "symbol_hits", "symbol_misses", "file_hits", "file_misses", "lists", "sibling_spellings", "nested_names", "duplicate_files"}
+Fresh(stim) == [stim |-> stim, n |-> 0, ver |-> "", sent |-> <<>>, ngot |-> 0, over |-> FALSE, closed |-> FALSE, nsess |-> 0]
+Keys == {"runs", "symbol_hits", "symbol_misses", "file_hits", "file_misses", "lists", "sibling_spellings", "nested_names", "duplicate_files", "sessions", "pipelined_reads", "session_errors", "session_ends"}
 Init == InitK(Fresh([files |-> <<>>]), Keys)
 Reset == ResetK(Fresh(E.stim)) /\ Count({"runs"} \cup (IF E.stim.dup THEN {"duplicate_files"} ELSE {}))
 \* files in registration order: the registered sets one after the other (indices are 0-based in the stimulus)
@@ -36,8 +36,28 @@ Answer == /\ Live("answer")
                    \cup (IF E.q.kind = "list" THEN {"lists"} ELSE {})
                    \cup (IF E.q.kind = "symbol" /\ E.q.argb \in Siblings(files) THEN {"sibling_spellings"} ELSE {})
                    \cup (IF hit /\ Cardinality({ i \in 1..Len(E.q.argb) : E.q.argb[i] = 46 }) >= 3 THEN {"nested_names"} ELSE {}))
+\* ---- one stream carrying several queries (ReflStream.tla): answers come in the order of the queries, one per query, up to and
+\* including the first error status, which ends the stream; a closed stream ends after the last answer
+SessStart == /\ Live("sess_start") /\ Count({"sessions"})
+             /\ JudgeK(<<>>, [s EXCEPT !.ver = E.ver, !.sent = <<>>, !.ngot = 0, !.over = FALSE, !.closed = FALSE, !.nsess = @ + 1])
+SessSend == /\ Live("sess") /\ E.op = "send" /\ UNCHANGED stats /\ JudgeK(<<>>, [s EXCEPT !.sent = IF s.closed THEN @ ELSE Append(@, E.q)])
+SessClose == /\ Live("sess") /\ E.op = "close" /\ UNCHANGED stats /\ JudgeK(<<>>, [s EXCEPT !.closed = TRUE])
+SessOpen == /\ Live("sess") /\ E.op = "open" /\ UNCHANGED stats /\ JudgeK(<< <<"C19.StreamOpens", FALSE>> >>, s)
+IsAnswer(resp) == resp.k \in {"files", "services"}
+SessRecv ==
+  /\ Live("sess") /\ E.op = "recv"
+  /\ LET k == s.ngot + 1
+         due == ~s.over /\ k <= Len(s.sent)
+         own == IF s.ver = "v1" THEN ReflV1 ELSE ReflV1a IN
+     /\ JudgeK((IF due THEN Judge1(s.stim, s.sent[k], E.res, own)
+                           \o << <<"C19.EveryQueryOnAStreamIsAnswered", E.res.k \in {"files", "services", "status"}>>,
+                                  <<"C19.AnswersFollowQueriesInOrder", IsAnswer(E.res) => (E.echo.kind = s.sent[k].kind /\ (E.echo.kind = "list" \/ E.echo.argb = s.sent[k].argb))>> >>
+                 ELSE << <<"C19.NothingButTheEndWhenNoAnswerIsDue", E.res.k = "empty">> >>)
+                \o << <<"NoHang", E.res.k # "hang">>, <<"HarnessOK", (E.want = "E") <=> ~due>> >>,
+                [s EXCEPT !.ngot = IF due THEN k ELSE @, !.over = @ \/ E.res.k \in {"status", "empty"}])
+     /\ Count((IF due /\ Len(s.sent) > k THEN {"pipelined_reads"} ELSE {}) \cup (IF E.res.k = "status" THEN {"session_errors"} ELSE {}) \cup (IF E.res.k = "empty" THEN {"session_ends"} ELSE {}))
 End == EndK(<< <<"RunComplete", E.outcome = "ok" => s.n = Len(s.stim.queries)>> >>)
-Known == {"reset", "answer", "end"}
-Next == Reset \/ Answer \/ End \/ UnknownK(Known) \/ DeadSkipK
+Known == {"reset", "answer", "end", "sess_start", "sess"}
+Next == Reset \/ Answer \/ SessStart \/ SessSend \/ SessClose \/ SessOpen \/ SessRecv \/ End \/ UnknownK(Known) \/ DeadSkipK
 Spec == Init /\ [][Next]_kvars
 =============================================================================
